@@ -139,6 +139,78 @@ start :: fn do
 end
 ''', {})
 
+T("fresh_value_per_activation", "literal-values-are-fresh-per-activation", '''
+mk :: pu -> [int] do
+    ret [0]
+end
+mks :: pu -> [str] do
+    ret ["a", "b"]
+end
+pair :: fn -> ([int], [int]) do
+    ret ([1], [1])
+end
+grow :: fn n: int -> [int] do
+    l := mk()
+    if n > 0 do
+        inner := grow(n - 1)
+        inner -> list.push(n)
+    end
+    l -> list.push(n * 10)
+    ret l
+end
+start :: fn do
+    a := mk()
+    b := mk()
+    a -> list.push(?x)
+    print(a)
+    print(b)
+    print(mk())
+    s := mks()
+    s -> list.pop()
+    print(mks())
+    print(grow(?x))
+    t := pair()
+    t[0] -> list.push(5)
+    print(t[1])
+    print(pair())
+    cs := [pu -> [int] do ret [7] end, pu -> [int] do ret [7] end]
+    cs -> for_each(fn c: pu -> [int] do
+        r := c()
+        r -> list.push(?x)
+        print(r)
+    end)
+end
+''', {"x": (0, 2)}, tags=("reent",))
+
+T("nested_blob_self", "self-in-nested-blob-literals", '''
+Button :: blob {
+    tag: int,
+    get: fn -> int,
+    handlers: [fn -> int],
+    pair: (fn -> int, int),
+    me: int,
+}
+Panel :: blob {
+    id: int,
+    make: fn -> Button,
+}
+start :: fn do
+    p := Panel { id: ?a, make: fn -> Button do
+        ret Button { tag: ?b, get: fn -> int do ret self.tag end, handlers: [fn -> int do ret self.id * 10 end], pair: (fn -> int do ret self.id + 100 end, 0), me: self.id + 1000 }
+    end }
+    b := p.make()
+    print(b.get())
+    b.handlers -> for_each(fn f: fn -> int do print(f()) end)
+    q := b.pair
+    print(q[0]())
+    print(b.me)
+    p.id = 7
+    c := p.make()
+    print(c.me)
+    c.handlers -> for_each(fn f: fn -> int do print(f()) end)
+end
+''', {"a": (0, 3), "b": (4, 6)}, tags=("reent",))
+
 T("int_div", "int-division-yields-float", '''
 start :: fn do
     a := 7
